@@ -1666,6 +1666,9 @@ def prepend_package(builderT:Type[ISystemBuilder], package:str) -> Type[ISystemB
                 prependedpackage = system.Package(
                     system, m, prependedpackage)
                 system.addObject(prependedpackage)
+                # There is no source for this package: it must never be handed 
+                # to processModule() when something imports from it.
+                prependedpackage.state = ProcessingState.PROCESSED
         
         def addModule(self, path: Path, parent_name: Optional[str] = None, ) -> None:
             if parent_name is None:
